@@ -18,6 +18,7 @@ type specEnv struct {
 	old  *state
 	prev *state
 	prevVars map[string]TV
+	entry *state
 	pkg  string
 	src  string
 }
@@ -87,6 +88,13 @@ func (env *specEnv) eval(e SExpr) TV {
 		}
 		sub := *env
 		sub.st = env.old
+		return sub.eval(x.X)
+	case *SEntry:
+		if env.entry == nil {
+			env.fail("entry() outside a loop clause")
+		}
+		sub := *env
+		sub.st = env.entry
 		return sub.eval(x.X)
 	case *SPrev:
 		if env.prev == nil {
@@ -590,6 +598,22 @@ func (env *specEnv) evalCall(x *SCall) TV {
 		}
 		srt := u.sortOf(t)
 		return TV{T: fmt.Sprintf("(select (select %s %s) %s)", env.heap("GA|chan.vals|"+srt), a.T, i.T), Sort: srt, Typ: t}
+	case "fnid": // fnid("parse.lexData"): the value of a function used as a function value
+		argn(1)
+		ts, ok := x.Args[0].(*SStr)
+		if !ok {
+			env.fail("fnid needs a function key string")
+		}
+		if _, ok := e.funcs[ts.V]; !ok {
+			env.fail("fnid: no function %s", ts.V)
+		}
+		return TV{T: u.fnID(ts.V), Sort: "Int"}
+	case "rangepos": // byte position of the (last) string range iterator of this function
+		argn(0)
+		if env.fr == nil || env.fr.lastRange == "" {
+			env.fail("rangepos() without a range loop")
+		}
+		return TV{T: app("select", env.heap("IT"), env.fr.lastRange), Sort: "Int"}
 	case "b2i":
 		argn(1)
 		a := env.eval(x.Args[0])
